@@ -192,6 +192,19 @@ def _level_class(e):
     return "other:" + fb.show(e).replace(" ", "")
 
 
+def _direct_recursions(scope):
+    """`self.project_node(x)` / `self.project_list_item(x)` on `self` itself: the projector is handed on as it is - the level stays the same, as with `self.with(self.header_level)`."""
+    out = []
+    for x in fb.walk(scope):
+        if x.get("k") == "mcall" and x["name"] in ("project_node", "project_list_item"):
+            r = x["recv"]
+            while r is not None and r.get("k") in ("addrof", "unary"):
+                r = r.get("e")
+            if r is not None and r.get("k") == "path" and r.get("res") == "local" and r.get("name") == "self":
+                out.append(x)
+    return out
+
+
 def rule_r2(facts, rep, rid="C07-R2"):
     rep.rule(rid, "heading level = nesting depth + 1: in Projector::project_node the Section arm emits Header(level+1) and recurses into its children "
                   "with level+1; the trailing sibling step and the Document arm keep the level; Quote and list arms restart at 0; project() starts at 0; "
@@ -212,10 +225,13 @@ def rule_r2(facts, rep, rid="C07-R2"):
             withs = [x for x in fb.walk(arm["body"]) if x.get("k") == "mcall" and x["name"] == "with" and (fb.callee(x) or "").endswith("Projector::with")]
             key = "%s|arm:%s|child-level" % (f.def_, vs_)
             n += 1
-            if not withs:
+            direct = _direct_recursions(arm["body"])
+            if not withs and not direct:
                 rep.violation(rid, key, "the %s arm does not recurse through with(level)" % vs_, loc(f, arm["body"]))
                 continue
-            cls = set(_level_class(w["args"][0]) for w in withs)
+            cls = set(_level_class(w["args"][0]) for w in withs) | ({"same"} if direct else set())
+            if not withs:
+                withs = direct
             if cls == {expect[vs_]}:
                 rep.ok(rid, key, "children projected with level class `%s`" % expect[vs_], loc(f, withs[0]))
             else:
@@ -240,7 +256,10 @@ def rule_r2(facts, rep, rid="C07-R2"):
                 sib.append(x)
     key = f.def_ + "|sibling-level"
     n += 1
-    if sib and set(_level_class(w["args"][0]) for w in sib) == {"same"}:
+    sib_direct = [x for x in _direct_recursions(f.body) if not any(p in ms for p in c.parents(x))]
+    if not sib and sib_direct:
+        rep.ok(rid, key, "next sibling projected by the same projector (same level)", loc(f, sib_direct[0]))
+    elif sib and set(_level_class(w["args"][0]) for w in sib) == {"same"}:
         rep.ok(rid, key, "next sibling projected at the same level", loc(f, sib[0]))
     else:
         rep.violation(rid, key, "the next sibling is projected with level `%s`, not the same level: later sections drift in depth" % [
@@ -249,6 +268,14 @@ def rule_r2(facts, rep, rid="C07-R2"):
     g = facts.fn("Projector::project_list_item")
     rep.saw_fn(g)
     withs = [x for x in fb.walk(g.body) if x.get("k") == "mcall" and x["name"] == "with"]
+    for x in _direct_recursions(g.body):
+        # `self.project_list_item(next)`: the items of one list share the projector
+        key = "%s|with:%s" % (g.def_, x["name"])
+        n += 1
+        if x["name"] == "project_list_item":
+            rep.ok(rid, key, "project_list_item called on the same projector (same level)", loc(g, x))
+        else:
+            rep.violation(rid, key, "the blocks of a list item are projected at the level of the list, not from 0 (heading levels restart inside items)", loc(g, x))
     for i, w in enumerate(withs):
         cg_ = ctx(g)
         tgt = None
